@@ -286,6 +286,9 @@ func (ev *Eval) expr(e *Expr, env *Env) Value {
 		return ev.lookup(e.Name, env, e)
 	case "call":
 		f := ev.lookup(e.Name, env, e)
+		if u, ok := f.(*UnionV); ok && len(e.Args) == 1 && e.Args[0].K == "unit" {
+			return u // None<int> (): a payload-less case of a generic union is written as a call
+		}
 		var args []Value
 		for _, a := range e.Args {
 			args = append(args, ev.expr(a, env))
